@@ -129,6 +129,12 @@ def check_assets(world, tree, props, order, paths, given=True, empty_simfile=Fal
                 fails.append({"clause": "SimfileDirectory.assets() raised", "expected": "asset loader", "observed": r2, **tag})
             else:
                 loaders.append(("SimfileDirectory.assets()", r2[1]))
+            # loading options are passed on to the simfile reader when no simfile is given
+            r3 = core.outcome_of(lambda: Assets(base, filesystem=fsobj, strict=False))
+            if r3[0] != "ok":
+                fails.append({"clause": "Assets(dir, strict=False) raised", "expected": "asset loader", "observed": r3, **tag})
+            else:
+                loaders.append(("Assets(strict=False)", r3[1]))
         for lname, a in loaders:
           for kind in kinds:
               want = {norm(fsname, join(fsname, base, *parts)) for parts in MA.acceptable(kind, props.get(PROP_OF[kind]), mt)}
